@@ -70,6 +70,7 @@ Proof. exact @cut_keeps_keysets. Qed.
 Print Assumptions C09_cut_keeps_keysets.
 
 Theorem C09_rotate_spec : forall (mem_ks : list ksrow) (active fee : Z) (w : world) (a : ksrow),
+       fee < two63 ->
        find_ks active mem_ks = Some a ->
        k_id a = active ->
        mem active (map k_id (d_ks (w_db w))) = true ->
@@ -92,6 +93,13 @@ Theorem C09_rotate_spec : forall (mem_ks : list ksrow) (active fee : Z) (w : wor
          d_pending (w_db w') = d_pending (w_db w) /\ d_sigs (w_db w') = d_sigs (w_db w).
 Proof. exact @rotate_spec. Qed.
 Print Assumptions C09_rotate_spec.
+
+Theorem C09_rotate_fee_must_fit : forall (mem_ks : list ksrow) (active fee : Z) (w : world),
+       two63 <= fee ->
+       exists w' : world,
+         run (rotate_keyset mem_ks active fee) no_fault w = (w', Done (Err EDb)) /\ same_but_calls w w'.
+Proof. exact @rotate_fee_must_fit. Qed.
+Print Assumptions C09_rotate_fee_must_fit.
 
 Theorem C09_load_spec : forall (fee : Z) (w : world) (rows : list ksrow),
        d_ks (w_db w) = rows ->
